@@ -196,4 +196,154 @@ theorem chunkLine_hex {ds : List Nat} (hne : ds ≠ []) (hd : ∀ d ∈ ds, d < 
       simp [hexValue]
   simp [hint]
 
+/-! ### status lines: `version SP 3DIGIT [SP reason]` -/
+
+def decChar (d : Nat) : Nat := 48 + d
+
+def decValue (ds : List Nat) : Nat := ds.foldl (fun a d => a * 10 + d) 0
+
+theorem digitVal_decChar {d : Nat} (h : d < 10) : digitVal 10 (decChar d) = some d := by
+  unfold digitVal hexVal decChar
+  have h1 : 48 ≤ 48 + d ∧ 48 + d ≤ 57 := by omega
+  simp [h1, h]
+
+theorem digitsB_dec : ∀ (ds : List Nat) (acc cnt : Nat), (∀ d ∈ ds, d < 10) → 0 < cnt + ds.length →
+    digitsB 10 (ds.map decChar) acc cnt false =
+      some (ds.foldl (fun a d => a * 10 + d) acc, cnt + ds.length) := by
+  intro ds
+  induction ds with
+  | nil => intro acc cnt _ h; simp at h; simp [digitsB]; omega
+  | cons d ds ih =>
+    intro acc cnt hd _
+    simp only [List.map_cons, digitsB, digitVal_decChar (hd d (by simp)), List.foldl_cons]
+    rw [ih _ _ (fun x hx => hd x (by simp [hx])) (by omega)]
+    simp; omega
+
+theorem decChar_plain {d : Nat} (h : d < 10) :
+    isAsciiWs (decChar d) = false ∧ isWs (decChar d) = false ∧ decChar d ≠ 45 ∧ decChar d ≠ 43 ∧
+    decChar d ≠ 0x85 ∧ decChar d ≠ 0xA0 := by
+  unfold decChar isAsciiWs isWs
+  refine ⟨?_, ?_, ?_, ?_, ?_, ?_⟩ <;> (try simp) <;> omega
+
+/-- `int(text)` of a decimal numeral of at most 4300 digits -/
+theorem pyInt_dec {ds : List Nat} (hne : ds ≠ []) (hd : ∀ d ∈ ds, d < 10) (hlen : ds.length ≤ maxStrDigits) :
+    pyInt (ds.map decChar) = some (decValue ds : Int) := by
+  have hs : ∀ b ∈ ds.map decChar, isAsciiWs b = false ∧ isWs b = false ∧ b ≠ 45 ∧ b ≠ 43 ∧ b ≠ 0x85 ∧ b ≠ 0xA0 := by
+    intro b hb
+    obtain ⟨d, hdm, rfl⟩ := List.mem_map.mp hb
+    exact decChar_plain (hd d hdm)
+  unfold pyInt
+  have hmap : (ds.map decChar).map (fun b => if b = 0x85 ∨ b = 0xA0 then 32 else b) = ds.map decChar := by
+    rw [List.map_congr_left (g := id)]
+    · simp
+    · intro b hb; have := hs b hb; simp [this.2.2.2.2.1, this.2.2.2.2.2]
+  simp only [hmap]
+  have hstrip : stripWith isAsciiWs (ds.map decChar) = ds.map decChar := stripWith_id (fun b hb => (hs b hb).1)
+  simp only [hstrip]
+  cases hds : ds with
+  | nil => exact absurd hds hne
+  | cons d0 dr =>
+    have h0 := hs (decChar d0) (by simp [hds])
+    have hsign : takeSign (decChar d0 :: dr.map decChar) = (false, decChar d0 :: dr.map decChar) := by
+      simp [takeSign, h0.2.2.1, h0.2.2.2.1]
+    simp only [List.map_cons, hsign]
+    have := digitsB_dec (d0 :: dr) 0 0 (by rw [← hds]; exact hd) (by simp)
+    simp only [List.map_cons] at this
+    rw [this]
+    have hl : dr.length + 1 ≤ maxStrDigits := by have := hlen; rw [hds] at this; simpa using this
+    simp [decValue]; exact hl
+
+theorem decChar_token {ds : List Nat} (hne : ds ≠ []) (hd : ∀ d ∈ ds, d < 10) : token (ds.map decChar) := by
+  refine ⟨by simpa using hne, ?_⟩
+  intro x hx
+  obtain ⟨d, hdm, rfl⟩ := List.mem_map.mp hx
+  exact (decChar_plain (hd d hdm)).2.1
+
+theorem splitWs_two_rest {a b : Bytes} (ha : token a) (hb : token b) (r : Bytes) :
+    splitWs (a ++ 32 :: (b ++ 32 :: r)) = a :: b :: splitWs r := by
+  unfold splitWs
+  have h32 : isWs 32 = true := by decide
+  have ra : a.reverse ≠ [] := by simpa using ha.1
+  have rb : b.reverse ≠ [] := by simpa using hb.1
+  rw [splitWsAux_token ha.2]
+  simp only [List.append_nil, splitWsAux, h32, if_true, ra, if_false, List.reverse_reverse]
+  rw [splitWsAux_token hb.2]
+  simp only [List.append_nil, splitWsAux, h32, if_true, rb, if_false, List.reverse_reverse]
+
+theorem splitWs_two {a b : Bytes} (ha : token a) (hb : token b) :
+    splitWs (a ++ 32 :: b) = [a, b] := by
+  unfold splitWs
+  have h32 : isWs 32 = true := by decide
+  have ra : a.reverse ≠ [] := by simpa using ha.1
+  have rb : b.reverse ≠ [] := by simpa using hb.1
+  rw [splitWsAux_token ha.2]
+  simp only [List.append_nil, splitWsAux, h32, if_true, ra, if_false, List.reverse_reverse]
+  have := splitWsAux_token hb.2 [] []
+  simp only [List.append_nil] at this
+  rw [this]
+  simp [splitWsAux, rb]
+
+/-- **Status line** `version SP code SP reason`: version token starting with `HTTP/`, a decimal code
+of any number of digits with value 100…999 (three digits), `reason` ANY bytes (the parser re-joins
+its words with single blanks). -/
+theorem parseStatusLine_canon {v reason : Bytes} {ds : List Nat} (hv : token v) (hver : startsWith sHTTP v = true)
+    (hne : ds ≠ []) (hd : ∀ d ∈ ds, d < 10) (hlen : ds.length ≤ maxStrDigits)
+    (hlo : 100 ≤ decValue ds) (hhi : decValue ds ≤ 999) :
+    parseStatusLine (v ++ 32 :: (ds.map decChar ++ 32 :: reason)) =
+      .ok (v, decValue ds, joinSp (splitWs reason)) := by
+  unfold parseStatusLine
+  have hne' : v ++ 32 :: (ds.map decChar ++ 32 :: reason) ≠ [] := by simp
+  have hsp := splitWs_two_rest hv (decChar_token hne hd) reason
+  simp only [hne', if_false, hsp, nth]
+  simp [hver, pyInt_dec hne hd hlen]
+  omega
+
+/-- … and without a reason phrase -/
+theorem parseStatusLine_canon_noreason {v : Bytes} {ds : List Nat} (hv : token v) (hver : startsWith sHTTP v = true)
+    (hne : ds ≠ []) (hd : ∀ d ∈ ds, d < 10) (hlen : ds.length ≤ maxStrDigits)
+    (hlo : 100 ≤ decValue ds) (hhi : decValue ds ≤ 999) :
+    parseStatusLine (v ++ 32 :: ds.map decChar) = .ok (v, decValue ds, []) := by
+  unfold parseStatusLine
+  have hne' : v ++ 32 :: ds.map decChar ≠ [] := by simp
+  have hsp := splitWs_two hv (decChar_token hne hd)
+  simp only [hne', if_false, hsp, nth]
+  simp [hver, pyInt_dec hne hd hlen, joinSp]
+  omega
+
+/-! ### chunk size lines with extensions -/
+
+theorem chunkSize_part {ds : List Nat} (hne : ds ≠ []) (hd : ∀ d ∈ ds, d < 16) :
+    bstrip (ds.map hexChar) = ds.map hexChar ∧
+    (ds.map hexChar).any (fun b => decide (128 ≤ b)) = false ∧
+    pyIntHex (ds.map hexChar) = some (hexValue ds : Int) := by
+  have h := chunkLine_hex hne hd
+  have hs : ∀ b ∈ ds.map hexChar, isAsciiWs b = false ∧ b ≠ 59 ∧ b ≠ 45 ∧ b ≠ 43 ∧ b ≠ 120 ∧ b ≠ 88 ∧ b < 128 := by
+    intro b hb
+    obtain ⟨d, hdm, rfl⟩ := List.mem_map.mp hb
+    exact hexChar_not_special (hd d hdm)
+  have hstrip : bstrip (ds.map hexChar) = ds.map hexChar := stripWith_id (fun b hb => (hs b hb).1)
+  have hany : (ds.map hexChar).any (fun b => decide (128 ≤ b)) = false := by
+    rw [List.any_eq_false]; intro b hb; have := (hs b hb).2.2.2.2.2.2; simp; omega
+  refine ⟨hstrip, hany, ?_⟩
+  unfold chunkLine at h
+  rw [partition_absent (fun b hb => (hs b hb).2.1)] at h
+  simp only [hstrip, hany, Bool.false_eq_true, if_false] at h
+  cases hp : pyIntHex (ds.map hexChar) with
+  | none => simp [hp] at h
+  | some n => simp [hp] at h; simp [h]
+
+/-- **Chunk size line with extensions**: `hex ; ext` is read as the size `hex`, whatever the
+extension text is, and the extensions as the parser's `parseExts` of that text. -/
+theorem chunkLine_ext {ds : List Nat} (hne : ds ≠ []) (hd : ∀ d ∈ ds, d < 16) (ext : Bytes) :
+    chunkLine (ds.map hexChar ++ 59 :: ext) =
+      .ok ((hexValue ds : Int), if ext = [] then [] else parseExts ext) := by
+  obtain ⟨h1, h2, h3⟩ := chunkSize_part hne hd
+  have hs : ∀ b ∈ ds.map hexChar, b ≠ 59 := by
+    intro b hb
+    obtain ⟨d, hdm, rfl⟩ := List.mem_map.mp hb
+    exact (hexChar_not_special (hd d hdm)).2.1
+  unfold chunkLine
+  rw [partition_name hs]
+  simp only [h1, h2, Bool.false_eq_true, if_false, h3]
+
 end Ioflo.Http
